@@ -38,6 +38,12 @@ func parsePat(p string) ast.Expr {
 	if err != nil {
 		panic("bad pattern " + p + ": " + err.Error())
 	}
+	ast.Inspect(e, func(n ast.Node) bool {
+		if id, ok := n.(*ast.Ident); ok && !holeRe.MatchString(id.Name) && id.Name != "_" {
+			Anchors.addIdent(id.Name)
+		}
+		return true
+	})
 	patCache.Store(p, e)
 	return e
 }
@@ -50,13 +56,13 @@ func (f *Fn) Match(pat string, e ast.Expr, b Binds) bool {
 	if b == nil {
 		b = Binds{}
 	}
-	return f.match(parsePat(pat), e, b)
+	return f.matchNode(parsePat(pat), e, b)
 }
 
 // MatchNew matches and returns fresh bindings (nil when there is no match).
 func (f *Fn) MatchNew(pat string, e ast.Expr) Binds {
 	b := Binds{}
-	if e != nil && f.match(parsePat(pat), e, b) {
+	if e != nil && f.matchNode(parsePat(pat), e, b) {
 		return b
 	}
 	return nil
@@ -81,6 +87,32 @@ func restore(dst, src Binds) {
 var mirrorOp = map[token.Token]token.Token{token.LSS: token.GTR, token.GTR: token.LSS, token.LEQ: token.GEQ, token.GEQ: token.LEQ}
 
 func (f *Fn) match(p ast.Expr, e ast.Expr, b Binds) bool {
+	p = ast.Unparen(p)
+	if e == nil {
+		return false
+	}
+	e = ast.Unparen(e)
+	// see through temporaries: a structured pattern matched against a local variable
+	// is matched against the variable's unambiguous definition (LocalDef).
+	if id, ok := e.(*ast.Ident); ok {
+		if _, isIdentPat := p.(*ast.Ident); !isIdentPat && f.matchDepth < 6 {
+			if rhs := f.LocalDef(id); rhs != nil {
+				save := copyBinds(b)
+				f.matchDepth++
+				ok := f.match(p, rhs, b)
+				f.matchDepth--
+				if ok {
+					return true
+				}
+				restore(b, save)
+			}
+		}
+	}
+	return f.matchNode(p, e, b)
+}
+
+// matchNode matches without looking through e itself (its sub-expressions are matched with match).
+func (f *Fn) matchNode(p ast.Expr, e ast.Expr, b Binds) bool {
 	p = ast.Unparen(p)
 	if e == nil {
 		return false
